@@ -58,13 +58,28 @@ type Ctx struct {
 	NotDecided  []string
 	Extra       map[string]any
 	seen        map[string]bool
+	canaryHits  map[string]int
+}
+
+// ExpectCanary declares that rule must have fired on the canary package.
+func (c *Ctx) ExpectCanary(rules ...string) {
+	for _, r := range rules {
+		c.Canaries = append(c.Canaries, Canary{Rule: r, Fired: c.canaryHits[r] > 0, Note: fmt.Sprintf("%d hits on the overlay canary package", c.canaryHits[r])})
+	}
 }
 
 func NewCtx(prop, tier string) *Ctx {
-	return &Ctx{Prop: prop, Tier: tier, Start: time.Now(), Analysed: map[string]int{}, Extra: map[string]any{}, seen: map[string]bool{}}
+	return &Ctx{Prop: prop, Tier: tier, Start: time.Now(), Analysed: map[string]int{}, Extra: map[string]any{}, seen: map[string]bool{}, canaryHits: map[string]int{}}
 }
 
 func (c *Ctx) add(o Oblig) {
+	if strings.Contains(o.Construct, canaryPkgName) || strings.Contains(o.Pos, canaryPkgName) {
+		// findings on the canary package prove the rule can fire; they are never violations of the tree
+		if o.Status == Violated || o.Status == Undecided {
+			c.canaryHits[o.Rule]++
+		}
+		return
+	}
 	k := o.Rule + "|" + o.Construct
 	if c.seen[k] {
 		// same construct evaluated twice (e.g. via two entry points): keep the worse.
